@@ -192,25 +192,25 @@ func (w *Worker) AttachRace(s string) {
 }
 
 type result struct {
-	Status    string           `json:"status"` // ok | violation | flaky
-	Property  string           `json:"property"`
-	Test      string           `json:"test"`
-	Seed      uint64           `json:"seed"`
-	WallS     float64          `json:"wall_s"`
-	Runs      int64            `json:"runs"`
-	Steps     int64            `json:"steps"`
-	Faults    map[string]int64 `json:"faults"`
-	Probes    map[string]int64 `json:"probes"`
-	KnownHits map[string]int64 `json:"known_hits"`
+	Status    string            `json:"status"` // ok | violation | flaky
+	Property  string            `json:"property"`
+	Test      string            `json:"test"`
+	Seed      uint64            `json:"seed"`
+	WallS     float64           `json:"wall_s"`
+	Runs      int64             `json:"runs"`
+	Steps     int64             `json:"steps"`
+	Faults    map[string]int64  `json:"faults"`
+	Probes    map[string]int64  `json:"probes"`
+	KnownHits map[string]int64  `json:"known_hits"`
 	KnownText map[string]string `json:"known_text"`
-	Distinct  []string         `json:"distinct"`
-	States    []string         `json:"states"`
-	Scheds    []string         `json:"scheds"`
-	Samples   []any            `json:"samples"`
-	Extra     map[string]any   `json:"extra"`
-	Violation *Violation       `json:"violation,omitempty"`
-	FailFile  string           `json:"rapid_failfile,omitempty"`
-	Message   string           `json:"message,omitempty"`
+	Distinct  []string          `json:"distinct"`
+	States    []string          `json:"states"`
+	Scheds    []string          `json:"scheds"`
+	Samples   []any             `json:"samples"`
+	Extra     map[string]any    `json:"extra"`
+	Violation *Violation        `json:"violation,omitempty"`
+	FailFile  string            `json:"rapid_failfile,omitempty"`
+	Message   string            `json:"message,omitempty"`
 }
 
 // Finish must be deferred by the test function; it writes the worker result file.
@@ -314,4 +314,16 @@ func PanicSig(op string, r any, stack []byte) string {
 		fn = strings.TrimPrefix(fn, "/")
 	}
 	return fmt.Sprintf("panic|%s|%s|%s", class, fn, op)
+}
+
+// ParamInt reads an integer tier parameter passed by the driver in VERIF_PARAMS.
+func ParamInt(name string, def int) int {
+	var m map[string]any
+	if err := json.Unmarshal([]byte(os.Getenv("VERIF_PARAMS")), &m); err != nil {
+		return def
+	}
+	if v, ok := m[name].(float64); ok {
+		return int(v)
+	}
+	return def
 }
